@@ -275,9 +275,12 @@ template <sz R, sz C> void shape_unary_case(std::string const &text, op<R, C> co
       C14_EQ(rd(il), rident<R>(), fn + ":identity", "identity<RxR>");
       C14_EQ(rd(ir), rident<C>(), fn + ":identity", "identity<CxC>");
       C14_EQ(rd(il * s), a, fn + ":left", "I*A");
-      C14_EQ(rd(s * ir), a, fn + ":right", "A*I");
       C14_EQ(rd(il * v), a, fn + ":left:view", "I*A (view storage)");
-      C14_EQ(rd(v * ir), a, fn + ":right:view", "A*I (view storage)");
+      if constexpr (tall_left_ok(R, C)) // R > C: evaluated by the binary C14b
+      {
+        C14_EQ(rd(s * ir), a, fn + ":right", "A*I");
+        C14_EQ(rd(v * ir), a, fn + ":right:view", "A*I (view storage)");
+      }
     }
   }
   if constexpr (R >= 2 && C >= 2)
@@ -433,6 +436,7 @@ template <sz R, sz C> void sum_pair_case(std::string const &text, op<R, C> const
 // ------------------------------------------------------------------ products of pairs
 template <sz R, sz K, sz C> void product_pair_case(std::string const &text, op<R, K> const &A, op<K, C> const &B)
 {
+  static_assert(tall_left_ok(R, K), "tall-left products belong to the binary C14b");
   static std::string const fn = "matrix_product<" + shape(R, K) + "." + shape(K, C) + ">";
   if (!vrt::begin_text(fn.c_str(), fn + " " + text))
     return;
@@ -452,10 +456,13 @@ template <sz R, sz K, sz C> void product_pair_case(std::string const &text, op<R
   C14_EQ(rd(A.v() * B.s), want, fn + ":wrong:view_static", "A*B");
   C14_EQ(rd(A.v() * B.v()), want, fn + ":wrong:view_view", "A*B");
   // (AB)^T = B^T A^T, both sides by fcppt
-  auto const tp = fm::transpose(p);
-  auto const pt = fm::transpose(B.s) * fm::transpose(A.s);
-  C14_TRUE(tp == pt, fn + ":law:transpose_product", ("transpose(A*B)=" + show(rd(tp)) + " transpose(B)*transpose(A)=" + show(rd(pt))).c_str());
-  C14_EQ(rd(pt), rtrans(want), fn + ":law:transpose_product:reference", "transpose(B)*transpose(A)");
+  if constexpr (tall_left_ok(C, K))
+  {
+    auto const tp = fm::transpose(p);
+    auto const pt = fm::transpose(B.s) * fm::transpose(A.s);
+    C14_TRUE(tp == pt, fn + ":law:transpose_product", ("transpose(A*B)=" + show(rd(tp)) + " transpose(B)*transpose(A)=" + show(rd(pt))).c_str());
+    C14_EQ(rd(pt), rtrans(want), fn + ":law:transpose_product:reference", "transpose(B)*transpose(A)");
+  }
   // (kA)B = A(kB) = k(AB)
   for (I k : {-1, 2})
   {
@@ -563,6 +570,7 @@ template <sz N> void ring_triples(std::vector<op<N, N>> const &fam, unsigned par
 template <sz R, sz K, sz L, sz C>
 void rect_assoc(std::vector<op<R, K>> const &fa, std::vector<op<K, L>> const &fb, std::vector<op<L, C>> const &fc)
 {
+  static_assert(tall_left_ok(R, K) && tall_left_ok(R, L) && tall_left_ok(K, L), "tall-left products belong to the binary C14b");
   static std::string const fn = "associative<" + shape(R, K) + "." + shape(K, L) + "." + shape(L, C) + ">";
   for (auto const &A : fa)
   {
@@ -606,7 +614,8 @@ template <sz R, sz C> void matvec_case(op<R, C> const &A, rvec<C> const &x, svec
     xc.storage()[i] = static_cast<I>(x[i]);
   }
   C14_EQ(rdv(A.s * fm::at_r<0>(xr)), want, fn + ":wrong:static_rowview", "A*x (x a matrix row view)");
-  C14_EQ(rd(A.s * xc).d, want, fn + ":law:column_matrix", "A*x vs A*(Cx1 matrix)");
+  if constexpr (tall_left_ok(R, C))
+    C14_EQ(rd(A.s * xc).d, want, fn + ":law:column_matrix", "A*x vs A*(Cx1 matrix)");
   // component i = dot(row_i(A), x)
   static_for<R>([&](auto ri) {
     constexpr sz r = decltype(ri)::value;
@@ -634,6 +643,7 @@ template <sz R, sz C> void matvec_all(std::vector<op<R, C>> const &fam, std::vec
 template <sz R, sz K, sz C>
 void matvec_laws(std::vector<op<R, K>> const &fa, std::vector<op<K, C>> const &fb, std::vector<rvec<C>> const &xs, unsigned part, unsigned nparts)
 {
+  static_assert(tall_left_ok(R, K), "tall-left products belong to the binary C14b");
   static std::string const fn = "matrix_vector_laws<" + shape(R, K) + "." + shape(K, C) + ">";
   std::vector<svec<C>> sx;
   for (auto const &x : xs)
